@@ -14,14 +14,15 @@ Section RouterInv.
   Variables Sig Act St Ev : Type.
   Variable sig_eqb : Sig -> Sig -> bool.
   Variable sig_of : Act -> Sig.
+  Variable is_reject : Ev -> bool.
   Notation disp := (Router.disp Sig Act St Ev).
   Notation result := (Router.result St Ev).
-  Notation call_d := (Router.call_d Sig Act St Ev sig_eqb sig_of).
+  Notation call_d := (Router.call_d Sig Act St Ev sig_eqb sig_of is_reject).
   Notation run_next := (Router.run_next Sig Act St Ev).
-  Notation run_idx := (Router.run_idx Sig Act St Ev sig_eqb sig_of).
-  Notation run_scan := (Router.run_scan Sig Act St Ev sig_eqb sig_of).
-  Notation dispatch_c := (Router.dispatch_c Sig Act St Ev sig_eqb sig_of).
-  Notation dispatch_nc := (Router.dispatch_nc Sig Act St Ev sig_eqb sig_of).
+  Notation run_idx := (Router.run_idx Sig Act St Ev sig_eqb sig_of is_reject).
+  Notation run_scan := (Router.run_scan Sig Act St Ev sig_eqb sig_of is_reject).
+  Notation dispatch_c := (Router.dispatch_c Sig Act St Ev sig_eqb sig_of is_reject).
+  Notation dispatch_nc := (Router.dispatch_nc Sig Act St Ev sig_eqb sig_of is_reject).
 
   Variable M : Act -> Prop.              (* the actions for which the primitive dispatchers are known to keep Q *)
   Variable Q : St -> St -> Prop.
@@ -61,6 +62,7 @@ Section RouterInv.
         + inversion H; subst. apply Qrefl.
       - inversion OK; subst. cbn [Router.call_d] in H.
         destruct (call_d X rt b x a s) as [x1 [[s1 ev1]|]] eqn:E; [|inversion H].
+        destruct (existsb is_reject ev1); [inversion H; subst; eapply IHb; eauto|].
         eapply Qtrans; [eapply IHb; eauto|].
         eapply run_next_inv; [|exact H].
         rewrite Forall_forall in *. intros d I. apply IHnx; auto.
@@ -145,9 +147,9 @@ Section Sys.
   Notation installed := (Dispatch.installed Ent Pay empty_pay clock0 spent).
   Notation dispatch_c := (Dispatch.dispatch_c Ent Pay).
   Notation dispatch_nc := (Dispatch.dispatch_nc Ent Pay).
-  Notation call_d := (Router.call_d string action rst event String.eqb sig_of).
+  Notation call_d := (Router.call_d string action rst event String.eqb sig_of ev_is_reject).
   Notation run_next := (Router.run_next string action rst event).
-  Notation run_scan := (Router.run_scan string action rst event String.eqb sig_of).
+  Notation run_scan := (Router.run_scan string action rst event String.eqb sig_of ev_is_reject).
   Notation includes_b := (Dispatch.includes_b Ent Pay).
   Notation inst_includes := (Dispatch.inst_includes Ent Pay).
   Notation bound_addrs := (Dispatch.bound_addrs Ent Pay).
@@ -180,7 +182,7 @@ Section Sys.
   Lemma c_to_nc (ds : list disp) fuel c a s c' r : Coh ds c -> dispatch_c fuel ds c a s = (c', r) ->
     Coh ds c' /\ snd (dispatch_nc fuel ds tt a s) = r.
   Proof.
-    intros HC H. pose proof (dispatch_coh string action rst event String.eqb sig_of eqb_sound ds fuel c a s HC) as [C1 E].
+    intros HC H. pose proof (dispatch_coh string action rst event String.eqb sig_of ev_is_reject eqb_sound ds fuel c a s HC) as [C1 E].
     unfold Dispatch.dispatch_c in H. unfold Dispatch.dispatch_nc. rewrite H in C1, E. cbn [fst snd] in C1, E.
     split; [exact C1|symmetry; exact E].
   Qed.
@@ -227,6 +229,7 @@ Section Sys.
       intros Ii Inc x s x' s' ev H. destruct i as [c|]; cbn [Dispatch.disp_of] in H.
       - unfold Dispatch.comp_disp in H. cbn [Router.call_d] in H.
         destruct (call_comp c a s) as [[s1 ev1]|] eqn:E; [|inversion H].
+        destruct (existsb ev_is_reject ev1); [inversion H; subst; eapply Hcomp; eauto|].
         rewrite <- (app_nil_r (g (IComp c))). eapply Qapp.
         + eapply Hcomp; eauto.
         + eapply addons_inv; [exact Ii|exact Inc|apply incl_refl|exact H].
@@ -254,8 +257,8 @@ Section Sys.
     exists x' hit', run_scan unit (dispatch_nc n ds) ds 0 (sig_of a) tt a s [] [] = (x', Some (s', evs, hit')).
   Proof.
     unfold Dispatch.dispatch_nc. cbn [Router.dispatch_nc]. intros H.
-    destruct (Router.run_scan string action rst event String.eqb sig_of unit
-                (Router.dispatch_nc string action rst event String.eqb sig_of n ds) ds 0 (sig_of a) tt a s [] [])
+    destruct (Router.run_scan string action rst event String.eqb sig_of ev_is_reject unit
+                (Router.dispatch_nc string action rst event String.eqb sig_of ev_is_reject n ds) ds 0 (sig_of a) tt a s [] [])
       as [x1 [[[s1 ev1] h1]|]] eqn:E; inversion H; subst. eexists; eexists; reflexivity.
   Qed.
 
@@ -283,7 +286,7 @@ Section Sys.
     agree_outside (sys_addrs sys) (fst s) (fst s') /\ pres_le (fst s) (fst s').
   Proof.
     intros H. unfold Dispatch.dispatch_c in H.
-    eapply (dispatch_c_inv string action rst event String.eqb sig_of (fun _ => True)
+    eapply (dispatch_c_inv string action rst event String.eqb sig_of ev_is_reject (fun _ => True)
               (fun s s' => agree_outside (sys_addrs sys) (fst s) (fst s') /\ pres_le (fst s) (fst s')));
       [| |apply Forall_forall|exact I|exact H].
     - intros x. split; [apply agree_refl|apply pres_refl].
@@ -355,7 +358,7 @@ Section Sys.
   Proof.
     intros CU fuel c a s c' s' evs H. unfold Dispatch.dispatch_c in H.
     assert (X : agree_outside (all_bound cs) (fst s) (fst s') /\ pres_le (fst s) (fst s')).
-    { eapply (dispatch_c_inv string action rst event String.eqb sig_of (fun _ => True)
+    { eapply (dispatch_c_inv string action rst event String.eqb sig_of ev_is_reject (fun _ => True)
                 (fun s s' => agree_outside (all_bound cs) (fst s) (fst s') /\ pres_le (fst s) (fst s')));
         [| |apply Forall_forall|exact I|exact H].
       - intros x. split; [apply agree_refl|apply pres_refl].
@@ -445,7 +448,7 @@ Section Sys.
     dispatch_nc fuel (installed sys) u a s = (u', Some (s', evs)) -> top_only (snd s') = top_only (snd s).
   Proof.
     intros Ma H. unfold Dispatch.dispatch_nc in H.
-    eapply (dispatch_nc_inv string action rst event String.eqb sig_of (fun a => a_addon a = true)
+    eapply (dispatch_nc_inv string action rst event String.eqb sig_of ev_is_reject (fun a => a_addon a = true)
               (fun s s' => top_only (snd s') = top_only (snd s))); [| |apply Forall_forall|exact Ma|exact H].
     - reflexivity.
     - intros x y z E1 E2. congruence.
